@@ -310,6 +310,15 @@ class G:
     def sub_body(self, s: Sub, d):
         body = self.stmts(d, self.r.choice([0, 1, 2]))
         if s.ret == N:
+            if self.r.random() < 0.2 and self.cfg.exits:
+                # the routine ends in an If/ElseIf ladder without a final Else whose arms all return:
+                # control still falls out of the ladder when no condition holds
+                self.note("ladder-tail")
+                arm = lambda: ("seq", self.stmts(d - 1, self.r.choice([0, 1])) + [("ret", None)])  # noqa: E731
+                ladder = ("if", self.expr(U, d - 1), arm(), None)
+                for _ in range(self.r.choice([1, 1, 2])):
+                    ladder = ("if", self.expr(U, d - 1), arm(), ladder)
+                body = body + [ladder]
             return body if body else [("op", "PopU", [("int", 0)])]
         return body + [self.expr(s.ret, d)]
 
